@@ -487,6 +487,18 @@ def generate(tier):
         for shk, sh, vi in (('t1,n2', X('enum', [('t', 1), ('n', 2)]), 1), ('n2,t2', X('enum', [('n', 2), ('t', 2)]), 1), ('n1,t1,t2', X('enum', [('n', 1), ('t', 1), ('t', 2)]), 2)):
             bad('debug-nameless', 'enum|%s|all-ignored-after-fields|%s' % (shk, off), K.render(sh, K.Config('', ['Debug'], {vi: [off]}, {(vi, 0): ['Debug(ignore)'], (vi, 1): ['Debug = false']})),
                 K.render(sh, K.Config('', ['Debug'], {vi: [off]}, {(vi, 0): ['Debug(ignore)']})))
+        # the same with the field style flipped (a tuple element printed with keys, a named element printed positionally): all fields ignored and no name is still nothing to print
+        for shk, sh, vi, nf in (('t2', X('enum', [('t', 2)]), 0, 'true'), ('u,t2', X('enum', [('u', 0), ('t', 2)]), 1, 'true'), ('n2', X('enum', [('n', 2)]), 0, 'false'), ('t1,n2', X('enum', [('t', 1), ('n', 2)]), 1, 'false'),
+                                ('n1,t2,u', X('enum', [('n', 1), ('t', 2), ('u', 0)]), 1, 'true')):
+            flip = off[:-1] + ', named_field = %s)' % nf
+            for ig in (('Debug(ignore)', 'Debug = false'), ('Debug = false', 'Debug(ignore = true)')):
+                bad('debug-nameless', 'enum|%s|all-ignored-flipped|%s|%s' % (shk, off, ig[0]), K.render(sh, K.Config('', ['Debug'], {vi: [flip]}, {(vi, 0): [ig[0]], (vi, 1): [ig[1]]})),
+                    K.render(sh, K.Config('', ['Debug'], {vi: [flip]}, {(vi, 0): [ig[0]]})))
+        for sh, sk, nf in ((SN, 'sn', 'false'), (ST, 'st', 'true')):
+            flip = off[:-1] + ', named_field = %s)' % nf
+            f = {p: ['Debug(ignore)'] for p in sh.positions()}
+            f2 = {p: ['Debug(ignore)'] for p in sh.positions()[1:]}
+            bad('debug-nameless', 'struct|%s-all-ignored-flipped|%s' % (sk, off), K.render(sh, K.Config('', [flip], {}, f)), K.render(sh, K.Config('', [flip], {}, f2)))
         bad('debug-nameless', 'empty-enum|%s' % off, K.render(X('enum', []), K.Config('', [off])), K.render(X('enum', []), K.Config('', ['Debug(name = true)'])))
     bad('debug-nameless', 'empty-enum|default', K.render(X('enum', []), K.Config('', ['Debug'])), K.render(X('enum', []), K.Config('', ['Debug = E'])))
     return R
